@@ -41,8 +41,11 @@ def rule_contracts():
         cs.append(rule_contract(rule, (rule, [STUB("x")]), [("x", OUTCOMES)], f"Evaluator.{rule}(single child)",
                                 lambda S, r: r is S.x, cover=False))
     cs += T.c02_template_contracts()
+    from contracts import macros
+    cs += macros.interpreter_contracts() + macros.compiled_contracts()
     return cs
 
 
 def extra(rep, tier):
-    pass
+    from contracts import macros
+    macros.summary_lemmas(rep)
